@@ -18,7 +18,7 @@ def _tier(tier):
         return dict(
             mc=["PartialSig_n4.cfg", "PartialSig_n7.cfg"],
             mc_r2=None,   # quick: the two-root graph dump below is itself an exhaustive run with the invariants
-            cover=("PartialSig_n4_cover.cfg", 700, 200),          # cfg, leaves replayed (seeded sample), extra edges
+            cover=("PartialSig_n4_cover.cfg", 1500, 400),          # cfg, leaves replayed (seeded sample), extra edges
             cover_r2=(120, 60),
             sims=[("PartialSig_n7_thorough.cfg", 7, 1, 60, 24), ("PartialSig_n10_sim.cfg", 10, 1, 40, 30),
                   ("PartialSig_n13_sim.cfg", 13, 1, 30, 36), ("PartialSig_r3_sim.cfg", 7, 3, 40, 24)],
